@@ -101,6 +101,78 @@ theorem tzLoop_dvd : ∀ (fuel n : Nat), 0 < n → n ≤ fuel → 2 ^ tzLoop fue
 theorem two_pow_tz_dvd {n : Nat} (hn : 0 < n) : 2 ^ trailingZeros n ∣ n :=
   tzLoop_dvd n n hn (Nat.le_refl _)
 
+theorem tzLoop_odd : ∀ (fuel n : Nat), 0 < n → n ≤ fuel → (n / 2 ^ tzLoop fuel n) % 2 = 1 := by
+  intro fuel
+  induction fuel with
+  | zero => intro n h1 h2; omega
+  | succ k ih =>
+    intro n hn hle
+    unfold tzLoop
+    split
+    · rename_i h; simp; omega
+    · rename_i h
+      have hpos : 0 < n / 2 := by omega
+      have := ih (n / 2) hpos (by omega)
+      rw [Nat.pow_succ, Nat.mul_comm, ← Nat.div_div_eq_div_mul]
+      exact this
+
+
+theorem tz_maximal {w c : Nat} (hw : 0 < w) (hc : 2 ^ c ∣ w) : c ≤ trailingZeros w := by
+  by_contra hlt
+  have hodd := tzLoop_odd w w hw (Nat.le_refl _)
+  change (w / 2 ^ trailingZeros w) % 2 = 1 at hodd
+  generalize trailingZeros w = t at hlt hodd
+  have hlt : t < c := by omega
+  obtain ⟨d, hd⟩ := hc
+  have hsplit : 2 ^ c = 2 ^ t * (2 * 2 ^ (c - t - 1)) := by
+    rw [← Nat.pow_succ', ← Nat.pow_add]; congr 1; omega
+  rw [hd, hsplit, Nat.mul_assoc, Nat.mul_div_cancel_left _ (Nat.two_pow_pos _), Nat.mul_assoc,
+    Nat.mul_mod_right] at hodd
+  omega
+
+
+/-- characterisation of `trailing_zeros`: the exponent `t` with `2^t ∣ n` and `n / 2^t` odd -/
+theorem tz_unique {n t : Nat} (hn : 0 < n) (hd : 2 ^ t ∣ n) (hodd : (n / 2 ^ t) % 2 = 1) :
+    trailingZeros n = t := by
+  have h1 := tz_maximal hn hd
+  apply Nat.le_antisymm _ h1
+  by_contra hlt
+  have hlt : t < trailingZeros n := by omega
+  obtain ⟨o, ho⟩ := two_pow_tz_dvd hn
+  generalize trailingZeros n = z at hlt ho
+  have hsplit : 2 ^ z = 2 ^ t * (2 * 2 ^ (z - t - 1)) := by
+    rw [← Nat.pow_succ', ← Nat.pow_add]; congr 1; omega
+  rw [ho, hsplit, Nat.mul_assoc, Nat.mul_div_cancel_left _ (Nat.two_pow_pos _), Nat.mul_assoc,
+    Nat.mul_mod_right] at hodd
+  omega
+
+/-- `(a | b).trailing_zeros() = min(a.trailing_zeros(), b.trailing_zeros())` for non-zero operands -/
+theorem tz_or {a b : Nat} (ha : 0 < a) (hb : 0 < b) :
+    trailingZeros (a ||| b) = min (trailingZeros a) (trailingZeros b) := by
+  have hda : 2 ^ trailingZeros a ∣ a := two_pow_tz_dvd ha
+  have hdb : 2 ^ trailingZeros b ∣ b := two_pow_tz_dvd hb
+  have hoa := tzLoop_odd a a ha (Nat.le_refl _)
+  have hob := tzLoop_odd b b hb (Nat.le_refl _)
+  change (a / 2 ^ trailingZeros a) % 2 = 1 at hoa
+  change (b / 2 ^ trailingZeros b) % 2 = 1 at hob
+  generalize trailingZeros a = ta at *
+  generalize trailingZeros b = tb at *
+  have hpos : 0 < a ||| b := by
+    apply Nat.pos_of_ne_zero
+    intro h
+    have := Nat.or_eq_zero_iff.1 h
+    omega
+  have hmin_a : 2 ^ min ta tb ∣ a := Nat.dvd_trans (Nat.pow_dvd_pow 2 (Nat.min_le_left _ _)) hda
+  have hmin_b : 2 ^ min ta tb ∣ b := Nat.dvd_trans (Nat.pow_dvd_pow 2 (Nat.min_le_right _ _)) hdb
+  apply tz_unique hpos
+  · apply Nat.dvd_of_mod_eq_zero
+    rw [Nat.or_mod_two_pow, Nat.mod_eq_zero_of_dvd hmin_a, Nat.mod_eq_zero_of_dvd hmin_b]; rfl
+  · rw [← Nat.shiftRight_eq_div_pow, Nat.shiftRight_or_distrib, Nat.shiftRight_eq_div_pow,
+      Nat.shiftRight_eq_div_pow, Nat.or_mod_two_eq_one]
+    rcases Nat.le_total ta tb with h | h
+    · left; rw [Nat.min_eq_left h]; exact hoa
+    · right; rw [Nat.min_eq_right h]; exact hob
+
 theorem two_pow_min_tz_dvd {a b : Nat} (ha : 0 < a) (hb : 0 < b) :
     2 ^ min (trailingZeros a) (trailingZeros b) ∣ a ∧ 2 ^ min (trailingZeros a) (trailingZeros b) ∣ b :=
   ⟨Nat.dvd_trans (Nat.pow_dvd_pow 2 (Nat.min_le_left _ _)) (two_pow_tz_dvd ha),
@@ -139,6 +211,7 @@ theorem xgcdPrim_spec (a b : Nat) :
       · rw [if_neg hb]
         simp only []
         obtain ⟨⟨ca, hca⟩, ⟨cb, hcb⟩⟩ := two_pow_min_tz_dvd (Nat.pos_of_ne_zero ha) (Nat.pos_of_ne_zero hb)
+        rw [tz_or (Nat.pos_of_ne_zero ha) (Nat.pos_of_ne_zero hb)]
         generalize min (trailingZeros a) (trailingZeros b) = sh at hca hcb
         have hp : 0 < 2 ^ sh := Nat.two_pow_pos _
         have ea : a / 2 ^ sh = ca := by rw [hca, Nat.mul_div_cancel_left _ hp]
@@ -413,6 +486,7 @@ theorem xgcdPrimWide_spec (H a b : Nat) :
       · rw [if_neg hb]
         simp only []
         obtain ⟨⟨ca, hca⟩, ⟨cb, hcb⟩⟩ := two_pow_min_tz_dvd (Nat.pos_of_ne_zero ha) (Nat.pos_of_ne_zero hb)
+        rw [tz_or (Nat.pos_of_ne_zero ha) (Nat.pos_of_ne_zero hb)]
         generalize min (trailingZeros a) (trailingZeros b) = sh at hca hcb
         have hp : 0 < 2 ^ sh := Nat.two_pow_pos _
         have ea : a / 2 ^ sh = ca := by rw [hca, Nat.mul_div_cancel_left _ hp]
